@@ -50,6 +50,14 @@ NAMES = [
 FILE_MODES = {"f": 0o100644, "x": 0o100755, "f4755": 0o104755, "f2755": 0o102755, "f1644": 0o101644, "f0666": 0o100666}
 LINK_IDS = ["updir", "absdir", "upfile", "upnew", "git", "hooks", "gitfile", "gitnew", "sib", "dir"]
 LEAF_KINDS = list(FILE_MODES) + ["L:" + t for t in LINK_IDS] + ["G"]
+# "mirror" kinds (only used for the re-used slot 'a' of the sequence families, never in the names matrix): an executable
+# regular file whose bytes EQUAL the canary file a symlink of an earlier tree points at, that canary being exactly as long
+# as the link text at depth 1.  A shortcut "same size, same bytes -> leave the file alone, just fix the mode" that is taken
+# before the symlink standing at the path has been replaced then chmods the canary outside the work tree / inside .git.
+CANARY_UPFILE = b"canary file 1\n"  # len == len(b"../canary-file")
+CANARY_GITFILE = b"git/a\n"  # len == len(b".git/a")
+MIRROR = {"mx:upfile": CANARY_UPFILE, "mx:gitfile": CANARY_GITFILE}
+FILE_MODES.update({k: 0o100755 for k in MIRROR})
 GITLINK_SHA = "11" * 20
 
 CONFIGS = {  # id -> (protectNTFS, protectHFS); None = leave the default (NTFS on, HFS off on Linux)
@@ -82,6 +90,8 @@ def link_target(t, depth):
 
 
 def payload(path, kind, depth):
+    if kind in MIRROR:
+        return MIRROR[kind]
     if kind in FILE_MODES:
         return b"%s %s\n" % (kind.encode(), path.hex().encode())  # unique per (path, kind)
     return link_target(kind[2:], depth)
@@ -294,7 +304,7 @@ def _w(path, data, mode=0o644):
 
 def add_git_canaries(S):
     g = os.path.join(S, "wt", ".git")
-    _w(os.path.join(g, "a"), b"canary .git/a\n")
+    _w(os.path.join(g, "a"), CANARY_GITFILE)
     _w(os.path.join(g, "dir", "a"), b"canary .git/dir/a\n")
     _w(os.path.join(g, "hooks", "a"), b"#!/bin/sh\n# canary .git/hooks/a\n", 0o755)
 
@@ -309,7 +319,7 @@ def initial_state(cfg, with_wt=True):
         return _INIT[key]
     setup_process()
     S = fresh_dir("c17init")
-    _w(os.path.join(S, "canary-file"), b"canary ../canary-file\n")
+    _w(os.path.join(S, "canary-file"), CANARY_UPFILE)
     _w(os.path.join(S, "canary-dir", "a"), b"canary ../canary-dir/a\n")
     _w(os.path.join(S, "canary-dir", "dir", "a"), b"canary ../canary-dir/dir/a\n")
     _w(os.path.join(S, "abs", "canary-dir", "a"), b"canary /abs/canary-dir/a\n")
@@ -1169,9 +1179,9 @@ def run(ctx):
     # ---- B. sequences: the same names come back with a different kind, through every entry point
     planB = []
     if q:
-        planB.append(("B-depth2", "default", fam_reuse(["updir", "upfile", "hooks", "gitfile", "gitnew"], ["f"], [], [POISON],
+        planB.append(("B-depth2", "default", fam_reuse(["updir", "upfile", "hooks", "gitfile", "gitnew"], ["f"] + list(MIRROR), [], [POISON],
                                                       poison_for=("f", "L:updir", "D"), slash_for=("updir",)),
-                      [k for k in TREE_OPS if k not in ("patch_copy_to", "restore_paths")], 2))
+                      [k for k in TREE_OPS if k not in ("restore_paths",)], 2))
         planB.append(("B-depth3", "default", fam_reuse(["updir", "gitfile"], ["f"], [], [POISON], poison_for=("L:updir",), in_tree=False),
                       ["checkout", "checkout_force", "reset_hard", "reset_mixed", "reset_soft", "stash_apply", "patch_add", "checkout_paths"], 3))
     else:
